@@ -216,6 +216,25 @@ func sizeClass(n int) string {
 
 // evalRoundTrip writes seq through a real writer and reads it back through a real reader.
 func evalRoundTrip(seq []rtMsg, useSnappy bool) (fs []finding, classes []string) {
+	fs, classes = evalRoundTripMode(seq, useSnappy, false)
+	if len(fs) == 0 && len(seq) >= 2 {
+		f2, _ := evalRoundTripMode(seq, useSnappy, true)
+		fs = append(fs, f2...)
+	}
+	return fs, classes
+}
+
+// posPattern is the payload of the message at position i of a sequence (position-dependent first byte).
+func posPattern(m rtMsg, i int) []byte {
+	b := pattern(m.Size, m.Pat)
+	if m.Size > 0 && m.Size < 1<<20 {
+		b = append([]byte(nil), b...)
+		b[0] ^= byte(0x5a + i)
+	}
+	return b
+}
+
+func evalRoundTripMode(seq []rtMsg, useSnappy, hold bool) (fs []finding, classes []string) {
 	t := sessionTemplate()
 	conn := new(bytes.Buffer)
 	w := p2p.VerifNewFrameRW(conn, t.initiator(), useSnappy)
@@ -233,8 +252,9 @@ func evalRoundTrip(seq []rtMsg, useSnappy bool) (fs []finding, classes []string)
 		}
 	}()
 	var sent []rtMsg
-	for _, m := range seq {
-		payload := pattern(m.Size, m.Pat)
+	var sentPos []int
+	for mi, m := range seq {
+		payload := posPattern(m, mi)
 		before := conn.Len()
 		err := w.WriteMsg(p2p.Msg{Code: m.Code, Size: uint32(m.Size), Payload: bytes.NewReader(payload)})
 		code := encCode(m.Code)
@@ -268,17 +288,42 @@ func evalRoundTrip(seq []rtMsg, useSnappy bool) (fs []finding, classes []string)
 			return fs, classes
 		}
 		sent = append(sent, m)
+		sentPos = append(sentPos, mi)
 	}
-	for i, m := range sent {
-		got, err := r.ReadMsg()
-		if err != nil {
-			fs = append(fs, rlpxFinding("rlpx-roundtrip", "written-equals-read", fmt.Sprintf("%s/read-error", id), detail()))
-			return fs, classes
+	// Two consumption disciplines: each message consumed before the next is read, and - what
+	// Peer.readLoop does, handing a message to the protocol goroutine while it already reads the next
+	// frame - every message of the sequence read first and the payloads consumed afterwards. In the
+	// second discipline later messages must not disturb the payload of an earlier one, so the bytes of
+	// every message are made position-dependent by flipping its first byte.
+	if hold {
+		var gots []p2p.Msg
+		for range sent {
+			got, err := r.ReadMsg()
+			if err != nil {
+				fs = append(fs, rlpxFinding("rlpx-roundtrip", "written-equals-read", fmt.Sprintf("%s/read-error", id), detail()))
+				return fs, classes
+			}
+			gots = append(gots, got)
 		}
-		body, _ := io.ReadAll(got.Payload)
-		if got.Code != m.Code || int(got.Size) != m.Size || !bytes.Equal(body, pattern(m.Size, m.Pat)) {
-			fs = append(fs, rlpxFinding("rlpx-roundtrip", "written-equals-read", fmt.Sprintf("%s/message-%d-differs", id, i), detail()))
-			return fs, classes
+		for i, m := range sent {
+			body, _ := io.ReadAll(gots[i].Payload)
+			if gots[i].Code != m.Code || int(gots[i].Size) != m.Size || !bytes.Equal(body, posPattern(m, sentPos[i])) {
+				fs = append(fs, rlpxFinding("rlpx-roundtrip", "written-equals-read", fmt.Sprintf("%s/message-%d-differs-when-consumed-after-later-reads", id, i), detail()))
+				return fs, classes
+			}
+		}
+	} else {
+		for i, m := range sent {
+			got, err := r.ReadMsg()
+			if err != nil {
+				fs = append(fs, rlpxFinding("rlpx-roundtrip", "written-equals-read", fmt.Sprintf("%s/read-error", id), detail()))
+				return fs, classes
+			}
+			body, _ := io.ReadAll(got.Payload)
+			if got.Code != m.Code || int(got.Size) != m.Size || !bytes.Equal(body, posPattern(m, sentPos[i])) {
+				fs = append(fs, rlpxFinding("rlpx-roundtrip", "written-equals-read", fmt.Sprintf("%s/message-%d-differs", id, i), detail()))
+				return fs, classes
+			}
 		}
 	}
 	if conn.Len() != 0 {
